@@ -229,3 +229,5 @@ def check(ctx):
     # ---- R-TYPE (F33): only the owner polls the single-consumer event queue
     witness.run_witness(ctx, "c16_cqueue", ctx.prog.extract_info.get("target"))
     shared.no_blocking_landing_pad(ctx)
+    # dependency (seed C16-9): the final drain really blocks until Finished only with the owner's cancel disabled (rules owned by C14)
+    ctx.import_rules("C14", r"^cqueue/drain-cancel-masked$|^scope/every-child-join")
